@@ -176,6 +176,10 @@ def c09_warp(ctx, shape, units, payload, kind):
                 if all(0 <= src[k] < shape[k] for k in range(dim)):
                     want[v] = arr[src]
             ctx.ensure(f"shift {sh}: output voxel v holds input voxel v - shift, zero outside", same(out, want))
+            keep = out.copy()
+            other = arr[::-1].copy() if dim == 2 else arr.copy()
+            out_other = C.correct_array(other)                          # same object, other data of the same shape
+            ctx.ensure(f"shift {sh}: an earlier result is not altered by a later call of the same correction", same(out, keep) and out_other is not out)
             out2 = C.correct_array(arr)
             ctx.ensure(f"shift {sh}: second call through the warp cache gives the same", same(out2, want))
         ctx.ensure("input array untouched", img.img is arr)
